@@ -294,6 +294,9 @@ def run_assembly(repo, R, tier, rules_prefix=""):
 
 
 def run(repo, R):
+    R.rule("PITFALL", "no result buffer typed after an input, no real cast of a transformation, no unbuffered accumulation / first-occurrence scatter through np.unique")
+    from ..pitfalls import report as _pitfalls
+    _pitfalls(repo, R, ['gbasis.base', 'gbasis.base_one', 'gbasis.base_two_symm', 'gbasis.base_two_asymm', 'gbasis.base_four_symm', 'gbasis.spherical'])
     R.rule("A1", "every block is self.construct_array_contraction(shells in loop order, **kwargs), once per unique block")
     R.rule("A2/A3", "per index position exactly one in-place multiply by that shell's norm_cont on its (M,L) axes, then - iff the shell is "
                     "spherical - one tensordot with that shell's own Cartesian->spherical matrix contracting L")
